@@ -138,7 +138,14 @@ class DateTimeOperator(object):
             time_point = None
             for parse_format in self.PARSE_FORMATS:
                 try:
-                    time_point = self.strptime(time_point_str, parse_format)
+                    if parse_format.startswith("%Y"):
+                        # ISO 8601 formats: strict parsing only, the lenient
+                        # datetime fallback misreads e.g. 20000101T0030
+                        time_point = self.time_point_parser.strptime(
+                            time_point_str, parse_format)
+                    else:
+                        time_point = self.strptime(
+                            time_point_str, parse_format)
                     break
                 except ValueError:
                     pass
